@@ -1,8 +1,8 @@
 #!/verif/.venv/bin/python
 # Replay of a solver counterexample against the unmodified code (no shims).
-# property=C07 kernel=seq label=k2:ref_additive_step
+# property=C07 kernel=seq label=k2:ref_untouched
 import sys
 sys.path[:0] = ['/repo' + "/pulser-core", '/repo' + "/pulser-simulation", "/verif"]
 from symx.replay import replay
-sys.exit(replay(check='checks.c07', kernel='seq', shape={'device': 'virt', 'channels': [('a', 'ram_glob', None), ('b', 'ram_loc', 'q0'), ('r', 'ryd_glob', None)], 'program': [['shift', ['q0', 'q1', 'q2'], 'ground-rydberg'], ['eom_on', 'r'], ['add_eom', 'r', 16, True], ['add_eom', 'r', 20, False], ['add_eom', 'r', 16, True], ['eom_off', 'r'], ['add', 'r', 'min-delay', 16, False]]},
-                assignment={'phi0': 1, 'ph2': 359, 'post2': 1, 'ph3': 0, 'buf#1.start': 0, 'buf#1.end': 0, 'buf#2.start': 0, 'buf#2.end': 0, 'ph4': 1, 'post4': 0, 'buf#3.start': 0, 'buf#3.end': 0, 'buf#4.start': 0, 'buf#4.end': 1, 'buf#5.start': 0, 'buf#5.end': 0, 'buf#6.start': 0, 'buf#6.end': 17, 'ph6': 2}, label='k2:ref_additive_step'))
+sys.exit(replay(check='checks.c07', kernel='seq', shape={'device': 'mock', 'channels': [('r', 'rydberg_global', None)], 'pre_dmm': 'dmap', 'program': [['shift', ['q0'], 'ground-rydberg'], ['shift', ['q1', 'q2'], 'ground-rydberg'], ['add', 'r', 'min-delay', 16, True], ['shift', ['q2'], 'ground-rydberg']]},
+                assignment={'phi0': 1, 'phi1': 0, 'ph2': 0, 'post2': 1, 'phi3': 0}, label='k2:ref_untouched'))
